@@ -10,5 +10,5 @@ Separate Extraction
   Byte.of_N Byte.to_N
   Wire.emit Wire.parse_all Wire.parse_seq Wire.tok_ok Wire.wsize
   WireSem.denote_top WireSem.denote_seq WireSem.rinit
-  Enc.enc Enc.einit Abs.abs_top
+  Enc.enc Enc.enc_write Enc.einit Abs.abs_top
   Utf8.go_utf16Length Utf8.strict_utf8.
